@@ -3,6 +3,7 @@
     Histories: [Call md path k | SetTable t | CleanupTick | ConnShutdown u] from any state. *)
 From Coq Require Import String List NArith Bool.
 From Fabio Require Import Lib.Outcome Lib.Bytes Model.GrpcPool Proofs.GrpcPool.
+From Fabio Require Model.Lookup Proofs.Lookup.
 Import ListNotations.
 Local Open Scope N_scope.
 
@@ -90,22 +91,42 @@ Theorem C16_dsthost_several_ignored : forall h1 h2 r, dsthost [(k_dsthost, h1 ::
 Proof. exact dsthost_several. Qed.
 Print Assumptions C16_dsthost_several_ignored.
 
-(* ... the targets returned belong to a route filed under the named host (normalised) or
-   under no host, whose path is a prefix of the method path; without a result no such route
-   answers under any admissible key. *)
+(* ... and the backend is chosen among the targets of the route that C03's model of
+   Table.Lookup (Model/Lookup.v, glob and no-glob variants, composed, not re-modelled) selects
+   for (host = the single dsthost value, else "" -- the code does not consult :authority --,
+   path = the parsed full method path) under the prefix matcher and the configured
+   GlobMatchingDisabled: for all tables and calls. *)
+Theorem C16_backend_is_c03_lookup : forall t noglob m p,
+  icpt_lookup t noglob (Some m) (Some p) =
+  Some (match Fabio.Model.Lookup.lookup (to_c03 t) (dsthost m) false p Fabio.Model.Lookup.MPrefix noglob with
+        | Some (k, p', _) => route_targets t k p'
+        | None => None
+        end).
+Proof. exact icpt_lookup_is_c03. Qed.
+Print Assumptions C16_backend_is_c03_lookup.
+
+(* With C03_lookup_sound (keys lower-case; outside C03's region 6, gobwas/glob deviating from
+   glob semantics): the route's host key matches the host named by dsthost -- as a glob, or
+   literally when glob matching is disabled; case-insensitively, :80 removed -- or the route
+   has no host, and its path is a prefix of the method path. *)
 Theorem C16_lookup_sound : forall t noglob host path ts,
+  Fabio.Proofs.Lookup.wf_keys (to_c03 t) ->
+  Fabio.Model.Lookup.F_C03_gobwas_overlap noglob false Fabio.Model.Lookup.MPrefix (to_c03 t) host path = false ->
   lookup t noglob host path = Some ts ->
   ts <> [] /\
-  exists key rs pth,
-    (key = [] \/ (In key (map fst t) /\ norm_host key = norm_host host)) /\
-    assoc (lower key) t = Some rs /\ In (pth, ts) rs /\ has_prefix path pth = true.
+  exists k p id, Fabio.Model.Lookup.is_candidate noglob false Fabio.Model.Lookup.MPrefix host path (k, p, id) = true /\
+                 In (k, p, id) (Fabio.Model.Lookup.all_routes (to_c03 t)) /\
+                 exists rs, assoc k t = Some rs /\ In (p, ts) rs.
 Proof. exact lookup_sound. Qed.
 Print Assumptions C16_lookup_sound.
 
+(* no backend only if C03's lookup selects nothing (C03_lookup_complete: no candidate) or the
+   selected route has no target (outside the domain: route add always gives one) *)
 Theorem C16_lookup_none : forall t noglob host path,
   lookup t noglob host path = None ->
-  forall key, (key = [] \/ (In key (map fst t) /\ norm_host key = norm_host host)) ->
-  lookup_host t key path = None.
+  Fabio.Model.Lookup.lookup (to_c03 t) host false path Fabio.Model.Lookup.MPrefix noglob = None \/
+  exists k p id, Fabio.Model.Lookup.lookup (to_c03 t) host false path Fabio.Model.Lookup.MPrefix noglob = Some (k, p, id) /\
+                 route_targets t k p = None.
 Proof. exact lookup_none. Qed.
 Print Assumptions C16_lookup_none.
 
@@ -113,7 +134,10 @@ Theorem C16_lookup_nonvacuous :
   lookup ex_tbl false (dsthost ex_md) (bs "/pkg.Svc/Get") = Some [ex_v] /\
   lookup ex_tbl false (dsthost []) (bs "/pkg.Svc/Get") = Some [ex_u] /\
   lookup ex_tbl true (dsthost ex_md) (bs "/pkg.Svc/Get") = Some [ex_v] /\
-  lookup [(bs "betatest", [(bs "/pkg.Svc", [ex_v])])] false [] (bs "/pkg.Svc/Get") = None.
+  lookup [(bs "betatest", [(bs "/pkg.Svc", [ex_v])])] false [] (bs "/pkg.Svc/Get") = None /\
+  lookup ex_gtbl false (bs "X.Beta.Example:80") (bs "/pkg.Svc/Get") = Some [ex_v] /\
+  lookup ex_gtbl true (bs "X.Beta.Example:80") (bs "/pkg.Svc/Get") = Some [ex_u] /\
+  lookup ex_gtbl false [] (bs "/pkg.Svc/Get") = Some [ex_u].
 Proof. exact lookup_nonvacuous. Qed.
 Print Assumptions C16_lookup_nonvacuous.
 
